@@ -702,6 +702,24 @@ def trotter_search(ctx):
         if d > 1e-10:
             ok = False
             fail(ctx, "trotter:commuting", f"{expr} (commuting terms): circuit({dt}).unitary() is {d:.3e} away from exp(-i dt H) up to phase", src, expected="< 1e-10", observed=d, broken=["C16_search_trotter"])
+    for expr in ("SymbolicHamiltonian(sympy.Float(2.5) + 0 * Z(0), nqubits=2)", "SymbolicHamiltonian(0.7 * Z(1), nqubits=3)",
+                 "SymbolicHamiltonian(0.7 * X(0) * Y(2) - 1.5, nqubits=3)"):
+        dt = rng.choice([0.1, 0.9])
+        ctx.case(("trot-comm", expr, dt))
+        ctx.stat("trotter:degenerate-forms")
+        src = PRE + f"import sympy\nh = {expr}\ndt = {dt!r}\nd = pdist(h.circuit(dt).unitary(), sla.expm(-1j * dt * np.asarray(h.matrix)))\nprint(d)\nsys.exit(0 if d < 1e-10 else 1)\n"
+        try:
+            import sympy
+
+            h = eval(expr, dict(Q, sympy=sympy))  # noqa: S307
+            d = pdist(h.circuit(dt).unitary(), sla.expm(-1j * dt * np.asarray(h.matrix)))
+        except Exception as ex:  # noqa: BLE001
+            ok = False
+            fail(ctx, "trotter:raises", f"{expr}: {type(ex).__name__}: {ex}", src, broken=["C16_search_trotter"])
+            continue
+        if d > 1e-10:
+            ok = False
+            fail(ctx, "trotter:commuting", f"{expr}: circuit({dt}).unitary() is {d:.3e} away from exp(-i dt H) up to phase", src, expected="< 1e-10", observed=d, broken=["C16_search_trotter"])
     # (b) non-commuting: error ratio err(dt) / err(dt/2) ~ 8 and |err| <= K dt^3
     fams = []
     for k in range(N):
@@ -814,6 +832,31 @@ def evolution_search(ctx):
         except Exception as ex:  # noqa: BLE001
             ok["exp"] = False
             fail(ctx, "evolve:raises:exp", f"StateEvolution 'exp' raises {type(ex).__name__}: {ex}", src, broken=["C16_search_exp"])
+
+    for solver, dense in (("exp", True), ("exp", False), ("rk4", True), ("rk45", False)):
+        n = 2
+        ms, const = rand_poly(rng, n, 3, commuting=(not dense and solver == "exp"), integer=False)
+        Hm = poly_matrix(ms, const, n)
+        hexpr = f"Hamiltonian({n}, {arr_src(Hm)})" if dense else f"SymbolicHamiltonian({poly_src(ms, const)}, nqubits={n})"
+        basis = rng.randrange(4)
+        src = PRE + (f"ham = {hexpr}\npsi = np.zeros(4, dtype=int); psi[{basis}] = 1\n"
+                     f"out = models.StateEvolution(ham, 0.01, solver={solver!r})(final_time=0.2, initial_state=psi)\n"
+                     f"ref = sla.expm(-0.2j * {arr_src(Hm)})[:, {basis}]\nd = pdist(out, ref)\nprint(d)\nsys.exit(0 if d < 1e-6 and psi.dtype.kind == 'i' and psi.sum() == 1 else 1)\n")
+        ctx.case(("int-state", solver, dense))
+        ctx.stat("evolution:integer-initial-state")
+        try:
+            env = dict(Q)
+            exec(f"ham = {hexpr}\n", env)  # noqa: S102
+            psi_i = np.zeros(4, dtype=int)
+            psi_i[basis] = 1
+            out = M.StateEvolution(env["ham"], 0.01, solver=solver)(final_time=0.2, initial_state=psi_i)
+            d = pdist(out, sla.expm(-0.2j * Hm)[:, basis])
+            if d > 1e-6 or psi_i.sum() != 1 or psi_i[basis] != 1:
+                ok["exp"] = False
+                fail(ctx, f"evolve:integer-state:{solver}", f"StateEvolution(solver={solver!r}) from the integer basis vector e_{basis}: {d:.3e} away from the column of expm(-i T H)", src, broken=["C16_search_exp"])
+        except Exception as ex:  # noqa: BLE001
+            ok["exp"] = False
+            fail(ctx, f"evolve:raises:{solver}", f"integer initial state: {type(ex).__name__}: {ex}", src, broken=["C16_search_exp"])
     ctx.ob("C16_search_exp", ok["exp"], "search", "" if ok["exp"] else "see failing inputs")
 
     # (b) convergence order and norm of rk4 / rk45 / trotter, dense and symbolic, t0 != 0,
@@ -854,10 +897,11 @@ def evolution_search(ctx):
         ctx.case(("order", solver, dense, td, n))
         ctx.stat(f"evolution:{solver}:{key_kind}")
         src = PRE + hsrc + f"solver = {qsolver!r}; T = {T!r}; t0 = {t0!r}\npsi = {arr_src(psi)}\nref = {arr_src(ref)}\n" + EVOL_SRC + (
-            "o1, _ = run(0.1); o2, _ = run(0.05); o3, nr = run(0.05, cb=True)\n"
+            "o1, _ = run(0.1); o2, _ = run(0.05); o4, _ = run(0.025)\n"
             + ("e1 = pdist(o1, ref); e2 = pdist(o2, ref)\n" if solver == "trotter" else "e1 = np.abs(o1 - ref).max(); e2 = np.abs(o2 - ref).max()\n") +
-            "print('errors', e1, e2, 'order', np.log2(e1 / e2), 'norm', np.linalg.norm(o2))\n"
-            f"sys.exit(0 if (e1 < 1e-11 or np.log2(e1 / e2) >= {expected - 0.5}) and e2 < {0.05 ** expected * 400!r} and abs(np.linalg.norm(o2) - 1) < 1e-9 else 1)\n")
+            + ("e4 = pdist(o4, ref)\n" if solver == "trotter" else "e4 = np.abs(o4 - ref).max()\n") +
+            "print('errors', e1, e2, e4, 'orders', np.log2(e1 / e2), np.log2(e2 / e4), 'norm', np.linalg.norm(o2))\n"
+            f"sys.exit(0 if (e2 < 1e-11 or max(np.log2(e1 / e2), np.log2(e2 / e4)) >= {expected - 0.5}) and e2 < {0.05 ** expected * 400!r} and abs(np.linalg.norm(o2) - 1) < 1e-9 else 1)\n")
         try:
             env = dict(Q)
             exec(hsrc + f"solver = {qsolver!r}; T = {T!r}; t0 = {t0!r}\n", env)  # noqa: S102
@@ -866,22 +910,25 @@ def evolution_search(ctx):
             o1, _ = env["run"](0.1)
             o2, _ = env["run"](0.05)
             o3, norms = env["run"](0.05, cb=True)
+            o4, _ = env["run"](0.025)
         except Exception as ex:  # noqa: BLE001
             ok["order"] = False
             fail(ctx, f"evolve:raises:{solver}", f"StateEvolution {solver} ({key_kind}) raises {type(ex).__name__}: {ex}", src, broken=["C16_search_order"])
             continue
         # the Trotter circuit drops the constant of the Hamiltonian: compare up to a global phase
         dist = (lambda a, b: pdist(a, b)) if solver == "trotter" else (lambda a, b: float(np.abs(a - b).max()))
-        e1, e2, e3 = dist(o1, ref), dist(o2, ref), dist(o3, ref)
-        sl = slope(e1, e2)
+        e1, e2, e3, e4 = dist(o1, ref), dist(o2, ref), dist(o3, ref), dist(o4, ref)
+        # two estimates of the order (dt 0.1 -> 0.05 -> 0.025): error terms of neighbouring orders can
+        # cancel at one scale
+        sl = max(slope(e1, e2), slope(e2, e4))
         # absolute level: a method of order p has error ~ C dt^p with C = O(1) here
         level = 0.05**expected * 400
-        if (e1 >= 1e-11 and sl < expected - 0.5) or e2 > level:
+        if (e2 >= 1e-11 and sl < expected - 0.5) or e2 > level:
             ok["order"] = False
             fail(ctx, f"order:{solver}" + (":time-dependent" if td else ""),
                  f"StateEvolution(solver={qsolver!r}, {'H(t)=(1+t)H0' if td else 'constant H'}, {'dense' if dense else 'symbolic'}, n={n}, t0={t0}, T={T}): "
-                 f"error {e1:.3e} at dt=0.1 and {e2:.3e} at dt=0.05 — observed order {sl:.2f}, stated order {expected}",
-                 src, expected=f"order >= {expected - 0.5}", observed=[e1, e2], broken=["C16_search_order"])
+                 f"error {e1:.3e} at dt=0.1, {e2:.3e} at dt=0.05, {e4:.3e} at dt=0.025 — observed order {sl:.2f}, stated order {expected}",
+                 src, expected=f"order >= {expected - 0.5}", observed=[e1, e2, e4], broken=["C16_search_order"])
         if abs(np.linalg.norm(o2) - 1) > 1e-9 or abs(np.linalg.norm(o3) - 1) > 1e-9:
             ok["norm"] = False
             fail(ctx, f"norm:{solver}", f"final state of solver {qsolver!r} has norm {np.linalg.norm(o2)!r} / {np.linalg.norm(o3)!r} (with callbacks)", src, broken=["C16_search_norm"])
@@ -1173,25 +1220,28 @@ def adiabatic_search(ctx):
         refp = sol.y[:, -1]
         src = PRE + hs + (f"psi0 = np.ones({2 ** n}, dtype=complex) / 2.0\nref = {arr_src(refp)}\n"
                           f"run = lambda dt: models.AdiabaticEvolution(h0, h1, lambda x: x, dt, solver={solver!r})(final_time={Ttot!r}, initial_state=psi0.copy())\n"
-                          "o1 = run(0.1); o2 = run(0.05)\n"
-                          + ("e1 = pdist(o1, ref); e2 = pdist(o2, ref)\n" if (solver == "exp" and not dense) else "e1 = np.abs(o1 - ref).max(); e2 = np.abs(o2 - ref).max()\n")
-                          + "print(e1, e2, np.log2(e1 / e2))\n"
-                          f"sys.exit(0 if (np.log2(e1 / e2) >= {expected - 0.5} or e1 < 1e-7) and abs(np.linalg.norm(o2) - 1) < 1e-9 else 1)\n")
+                          "o1 = run(0.1); o2 = run(0.05); o4 = run(0.025)\n"
+                          + ("e1 = pdist(o1, ref); e2 = pdist(o2, ref); e4 = pdist(o4, ref)\n" if (solver == "exp" and not dense)
+                             else "e1 = np.abs(o1 - ref).max(); e2 = np.abs(o2 - ref).max(); e4 = np.abs(o4 - ref).max()\n")
+                          + "print(e1, e2, e4, np.log2(e1 / e2), np.log2(e2 / e4))\n"
+                          f"sys.exit(0 if (max(np.log2(e1 / e2), np.log2(e2 / e4)) >= {expected - 0.5} or e2 < 1e-10) and abs(np.linalg.norm(o2) - 1) < 1e-9 else 1)\n")
         ctx.case(("adiabatic-evolution", solver, dense))
         ctx.stat(f"adiabatic:evolution:{solver}")
         try:
             env = dict(Q)
             exec(hs, env)  # noqa: S102
             run = lambda dt: M.AdiabaticEvolution(env["h0"], env["h1"], lambda x: x, dt, solver=solver)(final_time=Ttot, initial_state=psi0.copy())  # noqa: E731
-            o1, o2 = run(0.1), run(0.05)
+            o1, o2, o4 = run(0.1), run(0.05), run(0.025)
             # the Trotter circuit drops the constants of the Hamiltonians: up to a global phase there
             trot = solver == "exp" and not dense
-            e1, e2 = (pdist(o1, refp), pdist(o2, refp)) if trot else (np.abs(o1 - refp).max(), np.abs(o2 - refp).max())
-            if (e1 >= 1e-7 and slope(e1, e2) < expected - 0.5) or abs(np.linalg.norm(o2) - 1) > 1e-9:
+            e1, e2, e4 = (pdist(o1, refp), pdist(o2, refp), pdist(o4, refp)) if trot else (
+                np.abs(o1 - refp).max(), np.abs(o2 - refp).max(), np.abs(o4 - refp).max())
+            sl = max(slope(e1, e2), slope(e2, e4))
+            if (e2 >= 1e-10 and sl < expected - 0.5) or abs(np.linalg.norm(o2) - 1) > 1e-9:
                 ok = False
                 fail(ctx, f"order:{solver}:adiabatic" if solver != "exp" else "adiabatic:evolution:exp",
-                     f"AdiabaticEvolution(solver={solver!r}, {'dense' if dense else 'symbolic'}): errors {e1:.3e} (dt=0.1), {e2:.3e} (dt=0.05) against a fine reference — order {slope(e1, e2):.2f}, expected {expected}; norm {np.linalg.norm(o2)!r}",
-                     src, expected=f"order >= {expected - 0.5}", observed=[e1, e2], broken=["C16_search_adiabatic"])
+                     f"AdiabaticEvolution(solver={solver!r}, {'dense' if dense else 'symbolic'}): errors {e1:.3e} (dt=0.1), {e2:.3e} (dt=0.05), {e4:.3e} (dt=0.025) against a fine reference — order {sl:.2f}, expected {expected}; norm {np.linalg.norm(o2)!r}",
+                     src, expected=f"order >= {expected - 0.5}", observed=[e1, e2, e4], broken=["C16_search_adiabatic"])
         except Exception as ex:  # noqa: BLE001
             ok = False
             fail(ctx, "adiabatic:raises", f"AdiabaticEvolution {solver}: {type(ex).__name__}: {ex}", src, broken=["C16_search_adiabatic"])
@@ -1233,6 +1283,17 @@ def adiabatic_search(ctx):
                 fail(ctx, "adiabatic:step-times:" + ("dense" if dense else "trotter"),
                      f"AdiabaticEvolution(s = x², dt={dt}, 'exp', {'dense' if dense else 'symbolic commuting'})(final_time={Ttot}): {d:.3e} away from the product of exp(-i dt H(j dt)), {len(nr.results)} callback records (expected {ks + 1})",
                      src, expected="< 1e-9", observed=d, broken=["C16_search_adiabatic"])
+            # default initial state = ground state of h0 (here h0 is replaced by -X0 - X1, non-degenerate)
+            if dense:
+                hx = Q["hamiltonians"].X(n)
+                o_def = M.AdiabaticEvolution(hx, env["h1"], lambda x: x, dt)(final_time=Ttot)
+                o_exp = M.AdiabaticEvolution(hx, env["h1"], lambda x: x, dt)(final_time=Ttot, initial_state=np.ones(2**n, dtype=complex) / 2 ** (n / 2))
+                if pdist(o_def, o_exp) > 1e-9:
+                    ok = False
+                    fail(ctx, "adiabatic:default-initial-state", "AdiabaticEvolution without initial_state does not start from the ground state of h0",
+                         PRE + hs + f"hx = hamiltonians.X({n})\na = models.AdiabaticEvolution(hx, h1, lambda x: x, {dt})(final_time={Ttot})\n"
+                         f"b = models.AdiabaticEvolution(hx, h1, lambda x: x, {dt})(final_time={Ttot}, initial_state=np.ones({2 ** n}, dtype=complex) / {2 ** (n / 2)!r})\n"
+                         "print(pdist(a, b))\nsys.exit(0 if pdist(a, b) < 1e-9 else 1)\n", broken=["C16_search_adiabatic"])
             # parametrised schedule: set_parameters([p, T]) fixes s(t) = t ** p and the total time
             ev2 = M.AdiabaticEvolution(env["h0"], env["h1"], lambda x, p: x ** p[0], dt)
             ev2.set_parameters([2.0, 1.5])
